@@ -56,6 +56,14 @@ class SramWorld(World):
         hot = [rng.below(depth) for _ in range(3)]
         prev = None
         p_rst = rng.choice([0, 0, 0, 0.02])
+        # derived stream (the other draws of the run stay as they were): in a third of the runs the
+        # written words come from a pool of two or three values, some taken from the initial image,
+        # so that "the word being written equals what another row / the read port holds" happens
+        vr = rng.sub("vals")
+        p_pool = vr.choice([0, 0, 0.7])
+        pool = [vr.bits(dw) for _ in range(vr.range(2, 3))]
+        if config.get("init") and vr.chance(0.5):
+            pool[0] = int(vr.choice(list(config["init"]))) & ((1 << dw) - 1)
         for t in range(rng.range(60, 200)):
             if prev is not None and rng.chance(p_hold):
                 op = dict(prev)
@@ -67,6 +75,8 @@ class SramWorld(World):
                       "we": rng.below(2),
                       "adr": rng.choice(hot) if rng.chance(0.6) else rng.below(depth),
                       "sel": (1 << nsel) - 1 if selk < 2 else rng.bits(nsel), "dat": rng.bits(dw)}
+            if p_pool and vr.chance(p_pool):
+                op = dict(op, dat=vr.choice(pool))
             if rng.chance(p_rst):
                 op = dict(op, rst=1)
             ops.append(op)
